@@ -1,7 +1,7 @@
 (* C04 - property theorems only. *)
 From Coq Require Import Reals ZArith.
 From Coquelicot Require Import Coquelicot.
-Require Import PV.ProbNum PV.ProbThms PV.gen.ProbGen.
+Require Import PV.ProbNum PV.ProbThms PV.gen.ProbGen PV.GaussProb.
 Open Scope R_scope.
 
 (* tie: the bodies translated from numpy_backend.py / jax_backend.py / pytorch_backend.py on this run, instantiated at R,
@@ -75,6 +75,29 @@ Theorem C04_pytorch_normal_cdf_exact : forall (E : PExt RP) x mu sigma, e_erfc E
   pytorch_normal_cdf RP E x mu sigma = Phi ((x - mu) / sigma).
 Proof. intros E x mu sigma H Hs. rewrite (C04_tie_pytorch_normal_cdf E x mu sigma H). exact (torch_normal_cdf_exact x mu sigma Hs). Qed.
 
+(* --- consequences of the Gaussian integral (Gauss.v, GaussProb.v): Phi is a cdf, with explicit tail bounds --- *)
+Theorem C04_Phi_bounds : forall x, 0 < Phi x < 1.
+Proof. exact Phi_bounds. Qed.
+Theorem C04_Phi_limit_p : is_lim Phi p_infty 1.
+Proof. exact Phi_limit_p. Qed.
+Theorem C04_Phi_limit_m : is_lim Phi m_infty 0.
+Proof. exact Phi_limit_m. Qed.
+Theorem C04_phi_half_integral : is_lim (fun x => RInt phi 0 x) p_infty (1 / 2).
+Proof. exact phi_half_integral. Qed.
+Theorem C04_Phi_upper_tail : forall x, 0 <= x -> 1 - 2 / PI * exp (- x ^ 2 / 2) <= Phi x <= 1.
+Proof. exact Phi_upper_tail. Qed.
+Theorem C04_Phi_lower_tail : forall x, 0 <= x -> 0 <= Phi (- x) <= 2 / PI * exp (- x ^ 2 / 2).
+Proof. exact Phi_lower_tail. Qed.
+Theorem C04_erfc_bounds : forall z, 0 < erfc_def z < 2.
+Proof. exact erfc_bounds. Qed.
+Theorem C04_erfc_upper_tail : forall z, 0 <= z -> 0 <= erfc_def z <= 4 / PI * exp (- z ^ 2).
+Proof. exact erfc_upper_tail. Qed.
+Theorem C04_erfc_limit_p : is_lim erfc_def p_infty 0.
+Proof. exact erfc_limit_p. Qed.
+Theorem C04_pytorch_normal_cdf_bounds : forall (E : PExt RP) x mu sigma, e_erfc E = erfc_def -> sigma <> 0 ->
+  0 < pytorch_normal_cdf RP E x mu sigma < 1.
+Proof. intros E x mu sigma H Hs. rewrite (C04_pytorch_normal_cdf_exact E x mu sigma H Hs). exact (Phi_bounds ((x - mu) / sigma)). Qed.
+
 Print Assumptions C04_normal_logpdf_exact.
 Print Assumptions C04_poisson_logpdf_exact.
 Print Assumptions C04_poisson_logpdf_pmf.
@@ -86,3 +109,13 @@ Print Assumptions C04_Phi_increasing.
 Print Assumptions C04_Phi_deriv.
 Print Assumptions C04_torch_cdf_formula.
 Print Assumptions C04_pytorch_normal_cdf_exact.
+Print Assumptions C04_Phi_bounds.
+Print Assumptions C04_Phi_limit_p.
+Print Assumptions C04_Phi_limit_m.
+Print Assumptions C04_phi_half_integral.
+Print Assumptions C04_Phi_upper_tail.
+Print Assumptions C04_Phi_lower_tail.
+Print Assumptions C04_erfc_bounds.
+Print Assumptions C04_erfc_upper_tail.
+Print Assumptions C04_erfc_limit_p.
+Print Assumptions C04_pytorch_normal_cdf_bounds.
